@@ -8,6 +8,7 @@ package refsearch
 import (
 	"context"
 	"errors"
+	"sync"
 
 	"github.com/herohde/morlock/pkg/board"
 	"github.com/herohde/morlock/pkg/search"
@@ -31,6 +32,14 @@ type Config struct {
 	Leaf     LeafKind
 	QExplore search.Exploration // quiescence move selection
 	Eval     search.Evaluator   // static evaluator (implementation's)
+	// QMemo, if set, memoises quiescence values below the top node by position. Only sound when
+	// QExplore selects captures only and Eval is position-determined: below the top node every
+	// move was a capture, so no repetition or fifty-move draw can be pending and the value is a
+	// function of the position alone.
+	QMemo *sync.Map
+	// QPredPure: the predicate of QExplore looks at the move only (not at the board after it), so
+	// moves it rejects need not be played to find that out.
+	QPredPure bool
 }
 
 type Model struct {
@@ -163,15 +172,27 @@ func (m *Model) negamax(ctx context.Context, depth int, root bool) ref.Score {
 // quiet: the side to move may stand pat on the static evaluation or play any explored move.
 // The top call of a quiescence is made on a node the main search has already tested for a
 // draw; deeper nodes are tested here.
-func (m *Model) quiet(ctx context.Context, top bool) ref.Score {
+func (m *Model) quiet(ctx context.Context, top bool) (best ref.Score) {
 	if top && m.B.Result().Outcome == board.Draw {
 		return ref.Zero
 	}
 	if !top && m.G.DrawNow() {
 		return ref.Zero
 	}
+	if !top && m.Cfg.QMemo != nil {
+		key := m.G.Cur().FEN(0, 1)
+		if v, ok := m.Cfg.QMemo.Load(key); ok {
+			return v.(ref.Score)
+		}
+		defer func() {
+			if r := recover(); r != nil {
+				panic(r) // unwinding on the node budget: nothing to remember
+			}
+			m.Cfg.QMemo.Store(key, best)
+		}()
+	}
 	m.tick()
-	best := m.static(ctx)
+	best = m.static(ctx)
 	_, pred := m.Cfg.QExplore(ctx, m.B)
 	legal := m.G.Cur().Legal()
 	if len(legal) == 0 {
@@ -181,6 +202,9 @@ func (m *Model) quiet(ctx context.Context, top bool) ref.Score {
 		return ref.Zero
 	}
 	for _, rm := range legal {
+		if m.Cfg.QPredPure && !pred(bridge.Move(rm)) {
+			continue
+		}
 		im, ok := m.push(rm)
 		if !ok {
 			continue
